@@ -17,11 +17,11 @@ import (
 )
 
 var justifiedGENID = map[string]string{
-	"generator/dart.jsonForUnion|an.LocalName(member)":       "Kind tag of a union member: must equal the Go side's tag, which is the bare local name (AGR-C02b); a generic type cannot be a member (members are collected from package-scope names, i.e. the uninstantiated type, which the analysis refuses with `unsupported type T`)",
-	"generator/typescript.codeForUnion|an.LocalName(m)":      "Kind tag of a union member: must equal the Go side's tag, which is the bare local name (AGR-C02b); a generic type cannot be a member (see generator/dart.jsonForUnion)",
+	"generator/dart.jsonForUnion|an.LocalName(member)":                     "Kind tag of a union member: must equal the Go side's tag, which is the bare local name (AGR-C02b); a generic type cannot be a member (members are collected from package-scope names, i.e. the uninstantiated type, which the analysis refuses with `unsupported type T`)",
+	"generator/typescript.codeForUnion|an.LocalName(m)":                    "Kind tag of a union member: must equal the Go side's tag, which is the bare local name (AGR-C02b); a generic type cannot be a member (see generator/dart.jsonForUnion)",
 	"generator/sql.codeForUnion|member.Type().(*types.Named).Obj().Name()": "Kind tag of a union member: must equal the Go side's tag (AGR-C02b); a generic type cannot be a member (see generator/dart.jsonForUnion)",
-	"generator/go/gounions.jsonForUnion|an.LocalName(member)": "Kind tag and Go type name of a union member; a generic type cannot be a member (members are collected from package-scope names, i.e. the uninstantiated type, which the analysis refuses with `unsupported type T`)",
-	"generator.TypeArgsSuffix|arg.Obj().Name()":              "the name of a type argument; the argument's own type arguments are appended by the recursive call in the same expression",
+	"generator/go/gounions.jsonForUnion|an.LocalName(member)":              "Kind tag and Go type name of a union member; a generic type cannot be a member (members are collected from package-scope names, i.e. the uninstantiated type, which the analysis refuses with `unsupported type T`)",
+	"generator.TypeArgsSuffix|arg.Obj().Name()":                            "the name of a type argument; the argument's own type arguments are appended by the recursive call in the same expression",
 }
 
 // genIDRule checks the sites of package rel ("generator/dart", ...). Returns the number of sites.
